@@ -177,6 +177,8 @@ static void List_Del(var self) {
 static void List_Assign(var self, var obj) {
   struct List* l = self;
   
+  if (obj is self) { return; }
+  
   var type = implements_method(obj, Iter, iter_type) ? iter_type(obj) : Ref;
   
   List_Clear(self);
